@@ -239,9 +239,10 @@ class Plan:
             arr = np.float64(node['level'])
         elif letter == 'F':
             # whole-stream reference: filter one fresh full draw of the real input in one call
+            # (the filter's initial state is whatever the factory's reset() chooses: the reference is the
+            # property's own — one single request to a freshly built generator — not a re-implementation)
             x = np.asarray(build_real(node['in']).next(max(need, 1)))
-            b, a = signal.iirnotch(node['freq'], node['q'], node['fs'])
-            y, _ = signal.lfilter(b, a, x, zi=signal.lfilter_zi(b, a))
+            y = np.asarray(build_real(node).next(max(need, 1)))
             arr = (x, y)
             self._src[key] = arr
             return arr
